@@ -95,7 +95,9 @@ def _d(seed, label):
 OPS = ["sm2_keygen", "sm2_sign", "sm2_sign_ctx", "sm2_decrypt", "sm2_decrypt_bad", "sm2_ecdh", "sm2_import_der", "sm2_import_bad",
        "pkcs8_open", "pkcs8_wrong_password", "sm9_sign", "sm9_decrypt", "sm9_keygen",
        "hs_tlcp", "hs_tls12", "hs_tls13", "hs_tlcp_mutual", "hs_tls12_mutual", "hs_tls13_mutual",
-       "hs_tlcp_untrusted", "hs_tls12_untrusted", "hs_tls13_untrusted", "hs_tls12_badclient"]
+       "hs_tlcp_untrusted", "hs_tls12_untrusted", "hs_tls13_untrusted", "hs_tls12_badclient",
+       # a record is altered in flight (handshake phase or application phase): the failure paths of record protection
+       "hs_tlcp_tamper", "hs_tls12_tamper", "hs_tls13_tamper", "hs_tls13_mutual_tamper", "hs_tlcp_apptamper", "hs_tls12_apptamper", "hs_tls13_apptamper"]
 case_s = st.fixed_dictionaries({"op": st.sampled_from(OPS), "seed": st.integers(0, 1 << 20), "n": st.integers(1, 200)})
 
 _PKI = {}
@@ -124,6 +126,22 @@ def _handshake(ctx, proto, mutual, defect, seed, secrets):
         kw["client_cafile"] = _pki(proto, "server", "c19other")[1]["root"]
     if defect == "badclient":
         kw["server_cafile"] = _pki(proto, "server", "c19other")[1]["root"]
+    state = {"app": False, "n": 0}
+    if defect in ("tamper", "apptamper"):
+        target = seed % 7
+
+        def hook(rec):
+            if defect == "apptamper" and not state["app"]:
+                return [rec.raw]
+            # only protected records are interesting: TLS 1.3 outer type 23, or anything after ChangeCipherSpec
+            if defect == "tamper" and not (rec.raw[0] == 23 or (rec.raw[0] == 22 and len(rec.raw) in (85, 101))):
+                return [rec.raw]
+            i = state["n"]; state["n"] += 1
+            if i == (target % 3 if defect == "apptamper" else target):
+                b = bytearray(rec.raw); b[5 + (seed >> 3) % (len(b) - 5)] ^= 1 << (seed & 7)
+                return [bytes(b)]
+            return [rec.raw]
+        kw["hook"] = hook
     s = net.Session(ctx.variant, proto, sfiles, client_files=cfiles if mutual else None, mutual=mutual, quiet_ms=600, seed=seed, **kw)
     payload = hashlib.shake_128(b"c19 payload %d" % seed).digest(120)
     try:
@@ -132,10 +150,14 @@ def _handshake(ctx, proto, mutual, defect, seed, secrets):
         ok = hc[0] != "timeout" and hs[0] != "timeout" and hc[1] == 1 and hs[1] == 1
         if ok:
             secrets["application plaintext"] = payload
-            s.client.do("send", payload)
-            s.server.do("recv", 4096)
-            s.server.do("send", payload[::-1])
-            s.client.do("recv", 4096)
+            state["app"] = True
+            for _ in range(3):
+                s.client.do("send", payload)
+                s.server.do("recv", 4096, timeout=10.0)
+                s.server.do("send", payload[::-1])
+                s.client.do("recv", 4096, timeout=10.0)
+                if defect != "apptamper":
+                    break
         # whatever the endpoints derived is secret, completed or not
         for ep, nm in ((s.client, "client"), (s.server, "server")):
             if ep.conn is None:
@@ -169,7 +191,7 @@ def _handshake(ctx, proto, mutual, defect, seed, secrets):
         s.finish()
 
 
-@P.sub("ops", case_s, quick=460, thorough=23000)
+@P.sub("ops", case_s, quick=600, thorough=23000, chunk=40)
 def ops(case, ctx):
     """one catalogue operation with fd 1/2 captured; output scanned for every known secret"""
     l = lib(ctx.variant)
@@ -182,7 +204,7 @@ def ops(case, ctx):
             parts = op.split("_")
             proto = parts[1]
             mutual = "mutual" in parts or "badclient" in parts
-            defect = "untrusted" if "untrusted" in parts else "badclient" if "badclient" in parts else None
+            defect = next((x for x in ("untrusted", "badclient", "apptamper", "tamper") if x in parts), None)
             _handshake(ctx, proto, mutual, defect, seed, secrets)
             # the random values sent in the clear (hello randoms, key shares' public part) are not secrets, but the first
             # 32-byte draws also contain them: keep only draws that never appear on the wire - decided below by exclusion
@@ -276,4 +298,4 @@ def ops(case, ctx):
     hits = scan(out, secrets)
     for name, form, off in hits:
         ctx.fail("operation %s wrote secret '%s' (%s form, window at byte %d) to stdout/stderr; %d bytes were captured, e.g. %r" %
-                 (op, name, form, off, len(out), out[:160]), "leak/%s/%s" % (op.replace("_mutual", "").replace("_untrusted", "").replace("_badclient", ""), name.split(" #")[0]))
+                 (op, name, form, off, len(out), out[:160]), "leak/%s/%s" % (op.replace("_mutual", "").replace("_untrusted", "").replace("_badclient", "").replace("_apptamper", "").replace("_tamper", ""), name.split(" #")[0]))
